@@ -27,6 +27,7 @@ import copy
 import random
 import io
 import json
+import os
 
 from ..core import MachineBase, Violation
 from ..seams import CTX, InjectedValidatorFault, HarnessError
@@ -44,6 +45,8 @@ def dec(v):
         return set(v["__set__"])          # a caller handing a set (or tuple) where a list is documented
     if isinstance(v, dict) and list(v.keys()) == ["__tuple__"]:
         return tuple(v["__tuple__"])
+    if isinstance(v, dict) and list(v.keys()) == ["__float__"]:
+        return float(v["__float__"])      # inf / -inf / nan: floats JSON has no literal for
     return v
 
 
@@ -213,6 +216,9 @@ class FormatMachine(MachineBase):
                 raise
             return self._dump_failed(s, op, path, before, verdict, why, e, mark)
         after = self.fs.get(path)
+        if verdict == INVALID and self.prop_for_invalid(why) != "C06" and self.watching(self.prop_for_invalid(why)):
+            P = self.prop_for_invalid(why)
+            raise Violation(P, "%s.invalid_object_written" % P, "written/%s/%s" % (self.FORMAT, why), {"why": why, "bytes": len(after or b"")})
         if verdict == INVALID and not self.watching("C06"):
             # another property's run: what now sits at the destination is simply not trusted any more
             self.durable[path] = {"expected": None, "bytes": after, "clean": False, "kw": {}}
@@ -302,6 +308,28 @@ class FormatMachine(MachineBase):
         CTX.fault("F4.destination_replaced_by_another_writer")
         return "clobbered:" + how
 
+    def op_fs_alias(self, op):
+        """the stored file is shared: the destination path becomes a symbolic link to it, or the file gets a second hard
+        link (compose trees share files that way).  Nothing about the CONTENT at the path changes."""
+        from .. import simfs
+        path = self.path(op)
+        if self.fs.get(path) is None:
+            return "noop"
+        real = self.fs.real(path)
+        if os.path.islink(real):
+            return "noop"
+        how = op.get("how", "symlink")
+        if how == "symlink":
+            target = real + ".target"
+            simfs._o["rename"](real, target)
+            simfs._o["symlink"](os.path.basename(target), real)
+        else:
+            other = real + ".hardlink"
+            if not os.path.exists(other):
+                simfs._o["link"](real, other)
+        CTX.fault("F4.destination_is_a_link")
+        return "aliased:" + how
+
     def op_fs_reorder_json(self, op):
         """somebody re-saved the stored JSON document with another tool: same content, other KEY ORDER in every object (and
         other whitespace) - the order of the keys of a JSON object carries no information"""
@@ -353,6 +381,9 @@ class FormatMachine(MachineBase):
                     raise Violation("C06", "C06.wrong_exception_type", "exctype/%s/%s/%s" % (self.FORMAT, why, exc_class(e)),
                                     {"error": exc_class(e), "msg": str(e)[:160], "why": why})
             return "refused:" + exc_class(e)
+        if verdict == INVALID and self.prop_for_invalid(why) != "C06" and self.watching(self.prop_for_invalid(why)):
+            P = self.prop_for_invalid(why)
+            raise Violation(P, "%s.invalid_object_written" % P, "written/%s/%s" % (self.FORMAT, why), {"why": why, "via": "dumps", "chars": len(text)})
         if verdict == INVALID and not self.watching("C06"):
             return "written-invalid(foreign)"
         if verdict == INVALID:
@@ -816,6 +847,11 @@ class FormatMachine(MachineBase):
 
     def model_from_observation(self, obs):
         return copy.deepcopy(obs)
+
+    def prop_for_invalid(self, why):
+        """which property reports an invalid object that got written (C06, unless another property states the same rule and
+        the run focuses on it)"""
+        return "C06"
 
     def prime_document(self):
         """a small VALID current-format document of this format whose ids do not clash with generated content"""
